@@ -11,6 +11,11 @@ DIALECTS = {
     "8051": {"cpu": "8051", "DB": "db", "DW": "dw", "attrs": False},
 }
 
+FAULT_TEXT = {
+    "68000": {"F1200": "bogus", "F1110": "move.l d0", "F1320": "dc.b 300", "F1010": "dc.w undefd", "W60": "bra.s *+2"},
+    "z80": {"F1200": "bogus", "F1110": "ld a", "F1320": "db 300", "F1010": "dw undefd", "W60": "bogus"},
+}
+
 KEYWORDS = {"MACRO", "ENDM", "IRP", "IRPN", "IRPC", "REPT", "WHILE", "EXITM", "SHIFT", "INCLUDE", "BINCLUDE", "IF",
             "IFB", "IFNB", "ELSE", "ENDIF", "SET", "GLOBALSYMBOLS", "NOGLOBALSYMBOLS", "INTLABEL", "ARGCOUNT", "ALLARGS",
             "ATTRIBUTE", "EXPECT", "ENDEXPECT"}
@@ -65,6 +70,8 @@ def render_line(toks, dialect="z80", r=None, keepcase=False):
             out.append('"')
         elif i == opi and t in ("DB", "DW"):
             out.append(_case(d[t], r))
+        elif i == opi and t in FAULT_TEXT.get(dialect, {}):
+            out.append(FAULT_TEXT[dialect][t])
         elif i == opi:
             out.append(_case(t, r))
         elif inq or keepcase:
@@ -115,12 +122,13 @@ def render_file(lines, dialect="z80", r=None, preamble=True):
     return "\n".join(txt) + "\n"
 
 
-_TOK = re.compile(r"__LABEL__|[A-Za-z0-9]+|\s+|.", re.S)
+_TOK = re.compile(r"__[Ll][Aa][Bb][Ee][Ll]__|[A-Za-z0-9]+|\s+|.", re.S)
 
 
-def tokenize(text):
+def tokenize(text, split_quoted=True):
     """text delivered by GetNextLine -> token list of the model (words upper-cased, white space runs = SP,
-    the characters of a double-quoted string kept apart, control bytes = the stored parameter tokens)"""
+    control bytes = the stored parameter tokens).  split_quoted: the characters of a double-quoted string are
+    kept apart (the closed model writes IRPC strings that way)"""
     toks = []
     inq = False
     for m in _TOK.finditer(text):
@@ -131,14 +139,16 @@ def tokenize(text):
         elif s.isspace():
             toks.append(SP)
         elif s[0].isalnum():
-            if inq:
+            if inq and split_quoted:
                 toks += list(s.upper())
             else:
                 toks.append(s.upper())
-        elif s == "__LABEL__":
-            toks.append(s)
+        elif s.upper() == "__LABEL__":
+            toks.append("__LABEL__")
         elif ord(s[0]) < 32:
             toks.append("^%d" % ord(s[0]))
+        elif ord(s[0]) > 126:
+            toks.append("?")                   # not a name character for CompressLine; spelling not compared
         else:
             toks.append(s)
     return toks
